@@ -318,6 +318,55 @@ template <size_t K> static void do_rmxd(const Args& a, Out& o) {
 }
 
 // ------------------------------------------------------------------------------------------------
+// histories: a sequence of operations on a file of 5 registers, executed with the real in-place / fused / 3-operand calls
+//   m32h p v0 v1 v2 v3 v4  (op d a b c)*  = raw0..raw4 conv0..conv4          mrh K p v0 … v4 (op d a b c)* = raw… conv…
+//   op: 0 add(d,a,b) 1 sub(d,a,b) 2 mul(d,a,b) 3 neg(d,a) 4 axpy(d,a,b,c) 5 axmy(d,a,b,c) 6 maxpy(d,a,b,c)
+//       7 addin(d,a) 8 subin(d,a) 9 mulin(d,a) a negin(d) b axpyin(d,a,b) c axmyin(d,a,b) d maxpyin(d,a,b)
+//   (the generator never aliases the destination of a non-in-place call with a source: alias safety is property C15)
+// ------------------------------------------------------------------------------------------------
+template <class Field, class Elt> static void run_history(const Field& F, Elt* r, const Args& a, size_t first) {
+    for (size_t i = first; i + 5 <= a.n(); i += 5) {
+        unsigned op = (unsigned)a.W(i), d = (unsigned)a.W(i + 1) % 5, x = (unsigned)a.W(i + 2) % 5, y = (unsigned)a.W(i + 3) % 5,
+                 z = (unsigned)a.W(i + 4) % 5;
+        switch (op) {
+            case 0: F.add(r[d], r[x], r[y]); break;
+            case 1: F.sub(r[d], r[x], r[y]); break;
+            case 2: F.mul(r[d], r[x], r[y]); break;
+            case 3: F.neg(r[d], r[x]); break;
+            case 4: F.axpy(r[d], r[x], r[y], r[z]); break;
+            case 5: F.axmy(r[d], r[x], r[y], r[z]); break;
+            case 6: F.maxpy(r[d], r[x], r[y], r[z]); break;
+            case 7: F.addin(r[d], r[x]); break;
+            case 8: F.subin(r[d], r[x]); break;
+            case 9: F.mulin(r[d], r[x]); break;
+            case 10: F.negin(r[d]); break;
+            case 11: F.axpyin(r[d], r[x], r[y]); break;
+            case 12: F.axmyin(r[d], r[x], r[y]); break;
+            case 13: F.maxpyin(r[d], r[x], r[y]); break;
+            default: break;
+        }
+    }
+}
+static void do_m32h(const Args& a, Out& o) {
+    uint32_t p = (uint32_t)a.W(0);
+    M32 F(p);
+    uint32_t r[5];
+    for (int i = 0; i < 5; ++i) F.init(r[i], (uint64_t)a.W(1 + i));
+    run_history(F, r, a, 6);
+    for (int i = 0; i < 5; ++i) putu(o, r[i]);
+    for (int i = 0; i < 5; ++i) { uint32_t v; F.convert(v, r[i]); putu(o, v); }
+}
+template <size_t K> static void do_mrh(const Args& a, Out& o) {
+    typedef RecInt::ruint<K> E;
+    MR<K> F(toR<K>(Zarg(a, 1)));
+    E r[5];
+    for (int i = 0; i < 5; ++i) F.init(r[i], toR<K>(Zarg(a, 2 + i)));
+    run_history(F, r, a, 7);
+    for (int i = 0; i < 5; ++i) put<K>(o, r[i]);
+    for (int i = 0; i < 5; ++i) { E v; F.convert(v, r[i]); put<K>(o, v); }
+}
+
+// ------------------------------------------------------------------------------------------------
 // dispatch
 // ------------------------------------------------------------------------------------------------
 template <size_t K> static bool dispatchK(const std::string& key, const Args& a, Out& o) {
@@ -332,6 +381,7 @@ template <size_t K> static bool dispatchK(const std::string& key, const Args& a,
     else if (key == "rmc") do_rmc<K>(a, o);
     else if (key == "rmx") do_rmx<K>(a, o);
     else if (key == "rmxd") do_rmxd<K>(a, o);
+    else if (key == "mrh") do_mrh<K>(a, o);
     else return false;
     return true;
 }
@@ -346,6 +396,7 @@ static void process(const Args& a) {
         else if (key == "m32") do_m32(a, o);
         else if (key == "m32d") do_m32d(a, o);
         else if (key == "m32i") do_m32i(a, o);
+        else if (key == "m32h") do_m32h(a, o);
         else {
             unsigned long long K = a.W(0);
             switch (K) {
@@ -382,6 +433,22 @@ struct Gen {
     }
     static std::string H(unsigned long long v) { return vp::hex_ull(v); }
     static std::string HS(long long v) { return vp::hex_ll(v); }
+
+    // ---------------- histories
+    std::string history(size_t len) {
+        std::string s;
+        for (size_t i = 0; i < len; ++i) {
+            unsigned op = (unsigned)rng.below(14);
+            unsigned perm[5] = {0, 1, 2, 3, 4};
+            for (int j = 4; j > 0; --j) { unsigned k = (unsigned)rng.below(j + 1); std::swap(perm[j], perm[k]); }
+            unsigned d = perm[0], x = perm[1], y = perm[2], z = perm[3];
+            // sources may coincide with each other (squares, a*a+a), never with the destination of a non-in-place call
+            if (rng.below(4) == 0) y = x;
+            if (rng.below(8) == 0) z = x;
+            s += " " + H(op) + " " + H(d) + " " + H(x) + " " + H(y) + " " + H(z);
+        }
+        return s;
+    }
 
     // ---------------- 32-bit ring
     std::vector<uint32_t> corners32(uint32_t p) {
@@ -462,6 +529,14 @@ struct Gen {
             }
             vs.push_back((long long)rng.below(p));
             for (long long v : vs) line("m32i " + P + " " + HS(v));
+            {   // histories: short ones exhaustively often, long ones sampled
+                size_t nh = edge ? 6 : (thorough ? 3 : ((p >> 1) % 4 == 0 ? 1 : 0));
+                for (size_t i = 0; i < nh; ++i) {
+                    std::string l = "m32h " + P;
+                    for (int j = 0; j < 5; ++j) l += " " + H((j == 0 && (i & 1)) ? cs[rng.below(7)] : (uint32_t)rng.below(p));
+                    line(l + history(i % 3 == 0 ? 3 : (i % 3 == 1 ? 12 : 40)));
+                }
+            }
             if (p <= 257) {
                 size_t step = 1;
                 for (uint32_t v = 0; v < p; v += step) line("m32i " + P + " " + HS(v));
@@ -544,6 +619,12 @@ struct Gen {
             if ((thorough && p % 3 == 0) || p % 7 == 0) for (size_t i = 0; i < 7; ++i) for (size_t j = 0; j < 7; ++j) {
                 line("mr " + P + " " + hx(rs[i]) + " " + hx(rs[j]) + " " + hx(rs[(i + j) % 7]));
                 line("rm " + P + " " + hx(rs[i]) + " " + hx(rs[j]) + " " + hx(rs[(i + j) % 7]));
+            }
+            // histories
+            for (size_t i = 0; i < (thorough ? 4u : 2u); ++i) {
+                std::string l = "mrh " + P;
+                for (int j = 0; j < 5; ++j) l += " " + hx(rs[rng.below(n)]);
+                line(l + history(i % 2 == 0 ? 6 : 30));
             }
             // units
             size_t nd = 0;
